@@ -16,6 +16,7 @@ NOT_DECIDED = [
     "observed, not claimed: a bare `SHA1` line or `SHA1 (f) x y` is recorded as a checksum (field 2 and the field count are never checked)",
 ]
 CONFIG_SENSITIVE = False
+DESUGAR = True
 
 
 def classification_rules(ctx, sp, P=""):
